@@ -15,7 +15,14 @@ def probe_frame(rng, obj, X, mode):
         f = casts[0]
         gl = obj.values_orders[f]
         if f in obj.quantitative_features:
-            bs = [float(v) for v in gl.values() if not isinstance(v, str) and math.isfinite(v)]
+            raw_bs = [v for v in gl.values() if not isinstance(v, str) and math.isfinite(v)]
+            if any(core.canon(float(v)) != core.canon(v) for v in raw_bs):
+                # boundaries a double cannot hold (ints above 2^53): numpy compares them after rounding; probe with the
+                # exact integers only, in an integer column
+                vals = [int(rng.choice(raw_bs)) + rng.choice([-1, 0, 0, 1]) for _ in range(n)]
+                cols[raw] = pd.Series(vals, dtype="int64")
+                continue
+            bs = [float(v) for v in raw_bs]
             pool = list(bs)
             for b in bs:
                 pool += [float(np.nextafter(b, -np.inf)), float(np.nextafter(b, np.inf))]
